@@ -155,7 +155,7 @@ DoLinearize(x, ref, req, ex) ==
 \* (the leading conjunct keeps the action's own name and arguments on the edges of the dumped graph)
 Execute(c, za)    == /\ c \in Cells /\ DoExecute(<<cell[c], ZI(za)>>, c)
 ExecuteLit(xi)    == /\ xi \in XI /\ DoExecute(<<xi, 0>>, NoCell)
-LinearizeLit(xi)  == /\ xi \in XI /\ DoLinearize(<<xi, 0>>, NoCell, 3, TRUE)
+LinearizeLit(xi)  == /\ xi \in XI /\ LinModes # {} /\ DoLinearize(<<xi, 0>>, NoCell, 3, TRUE)
 Linearize(c, za, mode, ex) ==
     /\ (mode = "sub" => diffLvl >= 1)
     /\ DoLinearize(<<cell[c], ZI(za)>>, c, IF mode = "all" THEN 3 ELSE diffLvl, ex)
@@ -180,7 +180,7 @@ Init == /\ cell = [c \in Cells |-> IF c = "c1" THEN 1 ELSE 2]
         /\ HInit
         /\ entries = <<>> /\ dHasJac = FALSE /\ dJac = NoJac /\ diffLvl = 0 /\ buf = P0
 Next == \/ \E c \in Cells, za \in ZArgs : Execute(c, za)
-        \/ \E xi \in LitXs : ExecuteLit(xi) \/ (LinModes # {} /\ LinearizeLit(xi))
+        \/ \E xi \in LitXs : ExecuteLit(xi) \/ LinearizeLit(xi)
         \/ \E c \in Cells, za \in LinZArgs, m \in LinModes, ex \in ExecFlags : Linearize(c, za, m, ex)
         \/ \E c \in Cells, v \in XI : MutateCell(c, v)
         \/ SetDiff \/ ClearCache \/ SetCache \/ Reopen
